@@ -32,6 +32,7 @@ type SolverStats struct {
 	Unsat     int
 	Unknown   int
 	Errors    int
+	Rescued   int // unknown on the primary solver, decided by the fallback
 	SolveTime time.Duration
 }
 
@@ -46,6 +47,11 @@ type Solver struct {
 	timeout  int // ms per query
 	Log      io.Writer
 	dead     bool
+	Fallback *Solver // unused
+	// OneShot lists solver kinds tried, each in a fresh non-incremental
+	// process, when the incremental solver answers unknown (portfolio).
+	OneShot          []string
+	OneShotTimeoutMs int
 }
 
 const prelude = `
@@ -134,6 +140,9 @@ func (s *Solver) roundtrip() []string {
 }
 
 func (s *Solver) Close() {
+	if s.Fallback != nil {
+		s.Fallback.Close()
+	}
 	if s.cmd != nil && s.cmd.Process != nil {
 		s.in.Close()
 		s.cmd.Process.Kill()
@@ -176,6 +185,103 @@ func (s *Solver) sync(pc []*Term, sorts map[string]Sort) {
 // Check decides satisfiability of pc ∧ extra. If wantModel and the verdict
 // is Sat, the model restricted to vars is returned.
 func (s *Solver) Check(pc []*Term, extra *Term, sorts map[string]Sort, wantModel bool, vars []string) (Verdict, map[string]ModelVal) {
+	v, m := s.check1(pc, extra, sorts, wantModel, vars)
+	if v == Unknown {
+		for _, kind := range s.OneShot {
+			t0 := time.Now()
+			v2, m2 := oneShot(kind, s.OneShotTimeoutMs, pc, extra, sorts, wantModel, vars)
+			s.Stats.SolveTime += time.Since(t0)
+			if v2 != Unknown {
+				// the portfolio as a whole decided the query
+				s.Stats.Unknown--
+				s.Stats.Rescued++
+				if v2 == Sat {
+					s.Stats.Sat++
+				} else {
+					s.Stats.Unsat++
+				}
+				return v2, m2
+			}
+		}
+	}
+	return v, m
+}
+
+// oneShot decides pc ∧ extra in a fresh, non-incremental solver process.
+// (z3's one-shot string pipeline decides queries its incremental mode does not.)
+func oneShot(kind string, timeoutMs int, pc []*Term, extra *Term, sorts map[string]Sort, wantModel bool, vars []string) (Verdict, map[string]ModelVal) {
+	var b strings.Builder
+	b.WriteString("(set-option :produce-models true)\n(set-logic ALL)\n")
+	b.WriteString(prelude)
+	all := append([]*Term(nil), pc...)
+	if extra != nil {
+		all = append(all, extra)
+	}
+	declared := map[string]bool{}
+	var names []string
+	for _, t := range all {
+		for _, v := range t.vars {
+			if !declared[v] {
+				declared[v] = true
+				names = append(names, v)
+				fmt.Fprintf(&b, "(declare-const %s %s)\n", quoteName(v), sorts[v])
+			}
+		}
+	}
+	for _, t := range all {
+		b.WriteString("(assert " + t.s + ")\n")
+	}
+	b.WriteString("(check-sat)\n")
+	var want []string
+	if wantModel {
+		for _, n := range vars {
+			if declared[n] {
+				want = append(want, n)
+			}
+		}
+		if len(want) > 0 {
+			b.WriteString("(get-value (")
+			for _, n := range want {
+				b.WriteString(quoteName(n) + " ")
+			}
+			b.WriteString("))\n")
+		}
+	}
+	var cmd *exec.Cmd
+	secs := fmt.Sprint((timeoutMs + 999) / 1000)
+	switch kind {
+	case "z3", "z3-new":
+		cmd = exec.Command(kind, "-in", "-smt2", "-T:"+secs)
+	case "cvc5":
+		cmd = exec.Command("cvc5", "--strings-exp", "--produce-models", "--lang=smt2", fmt.Sprintf("--tlimit=%d", timeoutMs))
+	default:
+		return Unknown, nil
+	}
+	cmd.Stdin = strings.NewReader(b.String())
+	out, _ := cmd.CombinedOutput()
+	text := string(out)
+	if strings.Contains(text, "(error") {
+		// a model request after unsat is an expected error; anything before the verdict is not
+		first := strings.TrimSpace(text)
+		if !strings.HasPrefix(first, "sat") && !strings.HasPrefix(first, "unsat") {
+			return Unknown, nil
+		}
+	}
+	lines := strings.SplitN(strings.TrimSpace(text), "\n", 2)
+	switch strings.TrimSpace(lines[0]) {
+	case "unsat":
+		return Unsat, nil
+	case "sat":
+		model := map[string]ModelVal{}
+		if wantModel && len(lines) > 1 {
+			parseModel(lines[1], want, sorts, model)
+		}
+		return Sat, model
+	}
+	return Unknown, nil
+}
+
+func (s *Solver) check1(pc []*Term, extra *Term, sorts map[string]Sort, wantModel bool, vars []string) (Verdict, map[string]ModelVal) {
 	if s.dead {
 		s.Stats.Errors++
 		return Unknown, nil
